@@ -185,6 +185,7 @@ func (sc *StateCache) Get(key, blockHash string) (Value, bool) {
 		// block's own entry is final: look at it again before moving on to the previous block (a commit
 		// that wrote the entry after the first look would otherwise be skipped, and the ancestor's stale
 		// value would be returned and memoised over the committed one)
+		verifYield("get.bvs.Get.again")
 		vv, ok = bvs.Get(blockHash)
 		if !ok {
 			blockHash = prevHash.(string)
